@@ -529,3 +529,354 @@ Proof.
   rewrite (concat_spec (VFloat q) r I Hs eq_refl He), (concat_spec r (VFloat q) Hs I He eq_refl).
   rewrite (render_integral_float q z H), Hb. split; reflexivity.
 Qed.
+
+(* ------------------------- arithmetic depends only on the exact values *)
+Definition q_op (o : op) (x y : Q) : option Q :=
+  match o with
+  | Add => Some (x + y)%Q
+  | Sub => Some (x - y)%Q
+  | Mult => Some (x * y)%Q
+  | Div => if q_is_zero y then None else Some (x / y)%Q
+  | _ => None
+  end.
+
+Lemma number_numeric v : number v -> numeric v.
+Proof. destruct v; cbn; auto. Qed.
+
+Lemma q_is_zero_comp x y : (x == y)%Q -> q_is_zero x = q_is_zero y.
+Proof.
+  intros H. destruct (q_is_zero x) eqn:Ex; destruct (q_is_zero y) eqn:Ey; try reflexivity.
+  - apply q_is_zero_spec in Ex. rewrite H in Ex. apply q_is_zero_spec in Ex. congruence.
+  - apply q_is_zero_spec in Ey. rewrite <- H in Ey. apply q_is_zero_spec in Ey. congruence.
+Qed.
+
+Lemma num_apply_value o a b : number a -> number b -> arith o ->
+  match q_op o (qv a) (qv b) with
+  | Some q => exists v, num_apply o a b = Ok v /\ number v /\ (qv v == q)%Q
+  | None => num_apply o a b = Raise ZeroDivisionError
+  end.
+Proof.
+  intros Ha Hb Ho.
+  assert (Na := number_numeric a Ha). assert (Nb := number_numeric b Hb).
+  assert (Hbasic : forall o', o' = o -> o' = Add \/ o' = Sub \/ o' = Mult \/ o' = Div \/ o' = USub).
+  { intros o' ->. destruct Ho as [->|[->|[->| ->]]]; auto. }
+  destruct Ho as [->|[->|[->| ->]]]; cbn [q_op num_apply].
+  - destruct (py_add_num a b Na Nb) as (v & Hv & _ & Qv).
+    destruct (num_apply_basic Add a b Ha Hb (Hbasic _ eq_refl)) as [(v' & Hv' & Nv')|Hz];
+      cbn [num_apply] in *; [|congruence].
+    exists v. rewrite Hv in Hv'. injection Hv' as <-. auto.
+  - destruct (py_sub_num a b Na Nb) as (v & Hv & _ & Qv).
+    destruct (num_apply_basic Sub a b Ha Hb (Hbasic _ eq_refl)) as [(v' & Hv' & Nv')|Hz];
+      cbn [num_apply] in *; [|congruence].
+    exists v. rewrite Hv in Hv'. injection Hv' as <-. auto.
+  - destruct (py_mul_num a b Na Nb) as (v & Hv & _ & Qv).
+    destruct (num_apply_basic Mult a b Ha Hb (Hbasic _ eq_refl)) as [(v' & Hv' & Nv')|Hz];
+      cbn [num_apply] in *; [|congruence].
+    exists v. rewrite Hv in Hv'. injection Hv' as <-. auto.
+  - destruct (q_is_zero (qv b)) eqn:Ez.
+    + apply q_is_zero_spec in Ez. apply py_truediv_zero; assumption.
+    + assert (Hnz : ~ (qv b == 0)%Q).
+      { intros E. apply q_is_zero_spec in E. congruence. }
+      rewrite (py_truediv_num a b Na Nb Hnz). eexists. split; [reflexivity|].
+      split; [exact I|apply qv_mkfloat].
+Qed.
+
+(* equality of results up to the kind of number (Excel has one number type:
+   4 and 4.0 are the same value) *)
+Definition res_eqv (a b : res pyval) : Prop :=
+  match a, b with
+  | Ok x, Ok y => x = y \/ (number x /\ number y /\ (qv x == qv y)%Q)
+  | Raise e, Raise e' => e = e'
+  | _, _ => False
+  end.
+
+(* two operands that stand for the same number (or are the same non-number) *)
+Definition same_coerced (a a' : pyval) : Prop :=
+  (number a /\ number a' /\ (qv a == qv a')%Q) \/ (a = a' /\ is_num_b a = false).
+
+Lemma q_op_comp o x x' y y' : (x == x')%Q -> (y == y')%Q ->
+  match q_op o x y, q_op o x' y' with
+  | Some p, Some p' => (p == p')%Q
+  | None, None => True
+  | _, _ => False
+  end.
+Proof.
+  intros Hx Hy. destruct o; cbn [q_op]; try exact I; try (rewrite Hx, Hy; reflexivity).
+  rewrite (q_is_zero_comp y y' Hy). destruct (q_is_zero y'); [exact I|]. rewrite Hx, Hy. reflexivity.
+Qed.
+
+Lemma arith_congr l l' r r' l1 l1' r1 r1' o : arith o ->
+  in_error_codes l = Ok false -> in_error_codes l' = Ok false ->
+  in_error_codes r = Ok false -> in_error_codes r' = Ok false ->
+  excelutil.f_coerce_to_number py_fuel l (VBool true) = Ok l1 ->
+  excelutil.f_coerce_to_number py_fuel l' (VBool true) = Ok l1' ->
+  excelutil.f_coerce_to_number py_fuel r (VBool true) = Ok r1 ->
+  excelutil.f_coerce_to_number py_fuel r' (VBool true) = Ok r1' ->
+  coerced l1 -> coerced l1' -> coerced r1 -> coerced r1' ->
+  same_coerced l1 l1' -> same_coerced r1 r1' ->
+  res_eqv (fixup l o r) (fixup l' o r').
+Proof.
+  intros Ho Hel Hel' Her Her' Hl Hl' Hr Hr' Cl Cl' Cr Cr' Sl Sr.
+  assert (Hao : arith_op o = true) by (destruct Ho as [->|[->|[->| ->]]]; reflexivity).
+  rewrite (fixup_arith l o r l1 r1 Hel Her Hl Hr Cl Cr Hao).
+  rewrite (fixup_arith l' o r' l1' r1' Hel' Her' Hl' Hr' Cl' Cr' Hao).
+  assert (Hb : is_num_b l1' = is_num_b l1 /\ is_num_b r1' = is_num_b r1).
+  { split.
+    - destruct Sl as [(A & B & _)|(<- & _)]; [|reflexivity].
+      apply is_num_b_number in A. apply is_num_b_number in B. congruence.
+    - destruct Sr as [(A & B & _)|(<- & _)]; [|reflexivity].
+      apply is_num_b_number in A. apply is_num_b_number in B. congruence. }
+  destruct Hb as [-> ->].
+  assert (Hnum : is_num_b l1 && is_num_b r1 = true ->
+                 res_eqv (trap (num_apply o l1 r1)) (trap (num_apply o l1' r1'))).
+  { intros Eb. apply andb_true_iff in Eb. destruct Eb as [Nl Nr].
+    destruct Sl as [(Al & Al' & Ql)|(_ & F)]; [|congruence].
+    destruct Sr as [(Ar & Ar' & Qr)|(_ & F)]; [|congruence].
+    pose proof (num_apply_value o l1 r1 Al Ar Ho) as V.
+    pose proof (num_apply_value o l1' r1' Al' Ar' Ho) as V'.
+    pose proof (q_op_comp o (qv l1) (qv l1') (qv r1) (qv r1') Ql Qr) as Hc.
+    destruct (q_op o (qv l1) (qv r1)) as [p|]; destruct (q_op o (qv l1') (qv r1')) as [p'|];
+      try contradiction.
+    - destruct V as (v & -> & Nv & Qv). destruct V' as (v' & -> & Nv' & Qv'). cbn [trap res_eqv].
+      right. repeat split; auto. rewrite Qv, Qv'. exact Hc.
+    - rewrite V, V'. cbn [trap res_eqv]. left. reflexivity. }
+  destruct (is_num_b l1 && is_num_b r1) eqn:Eb.
+  - destruct Ho as [->|[->|[->| ->]]]; apply Hnum; reflexivity.
+  - destruct Ho as [->|[->|[->| ->]]]; cbn [res_eqv]; left; reflexivity.
+Qed.
+
+Lemma same_coerced_refl v : coerced v -> same_coerced v v.
+Proof.
+  destruct v; cbn [coerced]; try contradiction; intros _.
+  - left. repeat split. - left. repeat split. - right. split; reflexivity.
+Qed.
+
+(* re-coercing a number does not change its value *)
+Lemma coerce_number n : number n ->
+  exists n', excelutil.f_coerce_to_number py_fuel n (VBool true) = Ok n' /\ coerced n'
+             /\ same_coerced n n'.
+Proof.
+  destruct n; cbn [number]; try contradiction; intros _.
+  - rewrite coerce_int. eexists. split; [reflexivity|]. split; [exact I|]. left. repeat split.
+  - rewrite coerce_float. destruct (integral q) eqn:E.
+    + eexists. split; [reflexivity|]. split; [exact I|]. left. repeat split.
+      unfold integral in E. apply q_eqb_eq in E. unfold qv. cbn [as_num num_q]. symmetry. exact E.
+    + eexists. split; [reflexivity|]. split; [exact I|]. left. repeat split.
+Qed.
+
+Lemma number_not_error n : number n -> in_error_codes n = Ok false.
+Proof. destruct n; cbn [number]; try contradiction; reflexivity. Qed.
+
+(* TEXT IN ARITHMETIC, numeric text: the text behaves as the number the model's
+   parser [text_num] reads from it — on either side, against any modelled scalar *)
+Lemma text_as_number s n o r : arith o -> non_ascii s = false ->
+  in_error_codes (VStr s) = Ok false -> text_num s = Ok n -> number n ->
+  scalar r -> arith_modelled r = true ->
+  res_eqv (fixup (VStr s) o r) (fixup n o r) /\ res_eqv (fixup r o (VStr s)) (fixup r o n).
+Proof.
+  intros Ho Hna He Ht Nn Hsr Hmr.
+  assert (Hcs : excelutil.f_coerce_to_number py_fuel (VStr s) (VBool true) = Ok n)
+    by (rewrite (coerce_text s Hna); exact Ht).
+  destruct (coerce_number n Nn) as (n' & Hcn & Cn' & Sn).
+  assert (Cn : coerced n) by (destruct n; cbn [number] in Nn; try contradiction; exact I).
+  assert (Hen := number_not_error n Nn).
+  destruct (in_error_scalar r Hsr) as ([|] & Her).
+  - split.
+    + rewrite (error_right (VStr s) o r He Her), (error_right n o r Hen Her). left. reflexivity.
+    + rewrite !(error_left r o _ Her). left. reflexivity.
+  - destruct (coerce_scalar r Hsr Hmr) as (r1 & Hr & Cr). split.
+    + apply (arith_congr (VStr s) n r r n n' r1 r1 o); auto using same_coerced_refl.
+    + apply (arith_congr r r (VStr s) n r1 r1 n n' o); auto using same_coerced_refl.
+Qed.
+
+(* TEXT IN ARITHMETIC, other text: #VALUE! (also for ^), unless the other
+   operand is an error value *)
+Definition binary_arith (o : op) : Prop := o = Add \/ o = Sub \/ o = Mult \/ o = Div \/ o = Pow.
+
+Lemma text_not_number s o r : binary_arith o -> non_ascii s = false ->
+  in_error_codes (VStr s) = Ok false -> text_num s = Ok (VStr s) ->
+  scalar r -> in_error_codes r = Ok false -> arith_modelled r = true ->
+  fixup (VStr s) o r = Ok excelutil.c_VALUE_ERROR /\ fixup r o (VStr s) = Ok excelutil.c_VALUE_ERROR.
+Proof.
+  intros Ho Hna He Ht Hsr Her Hmr.
+  assert (Hcs : excelutil.f_coerce_to_number py_fuel (VStr s) (VBool true) = Ok (VStr s))
+    by (rewrite (coerce_text s Hna); exact Ht).
+  assert (Cs : coerced (VStr s)) by (apply (text_num_coerced s _ Hna Ht)).
+  destruct (coerce_scalar r Hsr Hmr) as (r1 & Hr & Cr).
+  assert (Hao : arith_op o = true) by (destruct Ho as [->|[->|[->|[->| ->]]]]; reflexivity).
+  rewrite (fixup_arith (VStr s) o r (VStr s) r1 He Her Hcs Hr Cs Cr Hao).
+  rewrite (fixup_arith r o (VStr s) r1 (VStr s) Her He Hr Hcs Cr Cs Hao).
+  cbn [is_num_b andb]. rewrite andb_false_r.
+  destruct Ho as [->|[->|[->|[->| ->]]]]; split; reflexivity.
+Qed.
+
+(* ------------------------------------------- TOTALITY / TYPE CLOSURE *)
+Definition op_modelled (o : op) (v : pyval) : bool :=
+  if is_cmp o then cmp_modelled v
+  else match o with BitAnd => concat_modelled v | _ => arith_modelled v end.
+
+(* the kind of value each operator returns *)
+Definition result_ok (o : op) (v : pyval) : Prop :=
+  if is_cmp o then exists b, v = VBool b
+  else match o with BitAnd => exists s, v = VStr s | _ => arith_result v end.
+
+Lemma total l o r : scalar l -> scalar r ->
+  in_error_codes l = Ok false -> in_error_codes r = Ok false -> o <> Pow ->
+  op_modelled o l = true -> op_modelled o r = true ->
+  exists v, fixup l o r = Ok v /\ result_ok o v.
+Proof.
+  intros Hsl Hsr Hel Her Ho Hml Hmr. unfold op_modelled, result_ok in *.
+  destruct (is_cmp o) eqn:Ec.
+  - destruct (cmp_total l o r Hsl Hsr Hel Her Hml Hmr Ec) as (b & Hb). eauto.
+  - destruct o; try discriminate Ec; try congruence.
+    + apply arith_total; auto.
+    + apply arith_total; auto.
+    + apply arith_total; auto.
+    + apply arith_total; auto.
+    + destruct (concat_total l r Hsl Hsr Hel Her Hml Hmr) as (s & Hs). eauto.
+    + apply arith_total; auto 6.
+Qed.
+
+(* a value of Excel: number, text (the error values are text), logical *)
+Definition xl_value (v : pyval) : Prop :=
+  match v with VBool _ | VInt _ | VFloat _ | VStr _ => True | _ => False end.
+
+Lemma result_ok_value o v : result_ok o v -> xl_value v.
+Proof.
+  unfold result_ok. destruct (is_cmp o); [intros (b & ->); exact I|].
+  assert (H : arith_result v -> xl_value v).
+  { intros [H|[->|[->| ->]]]; try exact I. destruct v; cbn in *; auto. }
+  destruct o; auto. intros (s & ->). exact I.
+Qed.
+
+Lemma closed l o r : scalar l -> scalar r -> o <> Pow ->
+  op_modelled o l = true -> op_modelled o r = true ->
+  exists v, fixup l o r = Ok v /\ xl_value v.
+Proof.
+  intros Hsl Hsr Ho Hml Hmr.
+  assert (Hv : forall x, scalar x -> in_error_codes x = Ok true -> xl_value x).
+  { intros x Hx He. destruct x; cbn [scalar] in Hx; try contradiction; try exact I; discriminate He. }
+  destruct (in_error_scalar l Hsl) as ([|] & Hel).
+  - exists l. split; [apply error_left; exact Hel|apply Hv; assumption].
+  - destruct (in_error_scalar r Hsr) as ([|] & Her).
+    + exists r. split; [apply error_right; assumption|apply Hv; assumption].
+    + destruct (total l o r Hsl Hsr Hel Her Ho Hml Hmr) as (v & Hf & Hr).
+      exists v. split; [exact Hf|eapply result_ok_value; eauto].
+Qed.
+
+(* outside the hypotheses the model answers Unmodelled and nothing else:
+   exact for comparisons and & ... *)
+Lemma unmodelled_exact l o r : scalar l -> scalar r ->
+  in_error_codes l = Ok false -> in_error_codes r = Ok false ->
+  is_cmp o = true \/ o = BitAnd ->
+  op_modelled o l = false \/ op_modelled o r = false ->
+  fixup l o r = Raise Unmodelled.
+Proof.
+  intros Hsl Hsr Hel Her [Ho| ->] Hm; unfold op_modelled in Hm.
+  - rewrite Ho in Hm. apply cmp_unmodelled; auto.
+  - cbn [is_cmp] in Hm. apply concat_unmodelled; auto.
+Qed.
+
+(* ... and for arithmetic on a text with a non-ASCII character *)
+Lemma uni_upper_non_ascii c : (127 <? c) = true -> (127 <? uni_upper c) = true.
+Proof.
+  intros H. apply Z.ltb_lt in H. apply Z.ltb_lt. unfold uni_upper, ascii_upper.
+  destruct ((224 <=? c) && (c <=? 254) && negb (c =? 247)) eqn:E.
+  - apply andb_true_iff in E. destruct E as [E _]. apply andb_true_iff in E. destruct E as [E _].
+    apply Z.leb_le in E. lia.
+  - destruct ((97 <=? c) && (c <=? 122)) eqn:E2; [|lia].
+    apply andb_true_iff in E2. destruct E2 as [_ E2]. apply Z.leb_le in E2. lia.
+Qed.
+Lemma non_ascii_upper s : non_ascii s = true -> non_ascii (map uni_upper s) = true.
+Proof.
+  unfold non_ascii. induction s as [|c s IH]; cbn [map existsb]; [discriminate|].
+  intros H. apply orb_true_iff in H. apply orb_true_iff. destruct H as [H|H].
+  - left. apply uni_upper_non_ascii. exact H.
+  - right. apply IH. exact H.
+Qed.
+Lemma non_ascii_neq u lit : non_ascii u = true -> non_ascii lit = false -> str_eqb u lit = false.
+Proof.
+  intros Hu Hl. destruct (str_eqb u lit) eqn:E; [|reflexivity].
+  apply str_eqb_eq in E. subst. congruence.
+Qed.
+
+Lemma coerce_non_ascii s : non_ascii s = true ->
+  excelutil.f_coerce_to_number py_fuel (VStr s) (VBool true) = Raise Unmodelled.
+Proof.
+  intros Hna. coerce_run. unfold str_upper. rewrite Hna.
+  destruct (case_ok s); cbn [bind]; [|reflexivity]. coerce_run.
+  pose proof (non_ascii_upper s Hna) as Hu.
+  rewrite (non_ascii_neq (map uni_upper s) [84; 82; 85; 69] Hu eq_refl),
+          (non_ascii_neq (map uni_upper s) [70; 65; 76; 83; 69] Hu eq_refl),
+          (non_ascii_neq (map uni_upper s) [35; 69; 77; 80; 84; 89; 33] Hu eq_refl). cbn [orb].
+  unfold py_int_base, parse_float. rewrite Hna.
+  destruct (str_contains [46] s); reflexivity.
+Qed.
+
+Lemma arith_non_ascii s o r : arith_op o = true -> non_ascii s = true -> scalar r ->
+  in_error_codes r = Ok false ->
+  fixup (VStr s) o r = Raise Unmodelled
+  /\ (arith_modelled r = true -> fixup r o (VStr s) = Raise Unmodelled).
+Proof.
+  intros Ho Hna Hsr Her.
+  assert (He : in_error_codes (VStr s) = Ok false).
+  { unfold in_error_codes, excelutil.c_ERROR_CODES. cbn [py_in hashable existsb py_eq].
+    repeat match goal with |- context [str_eqb s ?lit] =>
+      rewrite (non_ascii_neq s lit Hna eq_refl) end. reflexivity. }
+  split.
+  - unfold fixup. rewrite He. cbn [bind]. rewrite Her. cbn [bind].
+    destruct o; try discriminate Ho; cbn [is_cmp]; rewrite (coerce_non_ascii s Hna); reflexivity.
+  - intros Hmr. destruct (coerce_scalar r Hsr Hmr) as (r1 & Hr & _).
+    unfold fixup. rewrite Her. cbn [bind]. rewrite He. cbn [bind].
+    destruct o; try discriminate Ho; cbn [is_cmp]; rewrite Hr; cbn [bind];
+      rewrite (coerce_non_ascii s Hna); reflexivity.
+Qed.
+
+(* ------------------------------------------------------------ examples *)
+(* the model's reading of text: "12", " 3.5 ", "1e3", "-7", "TRUE" are numbers;
+   "abc", "" and "1,5" are not; "inf" and "1e400" are outside the model *)
+Example tn_12 : text_num [49; 50] = Ok (VInt 12). Proof. vm_compute. reflexivity. Qed.
+Example tn_3_5 : text_num [32; 51; 46; 53; 32] = Ok (VFloat (7 # 2)). Proof. vm_compute. reflexivity. Qed.
+Example tn_1e3 : text_num [49; 101; 51] = Ok (VFloat (1000 # 1)). Proof. vm_compute. reflexivity. Qed.
+Example tn_m7 : text_num [45; 55] = Ok (VInt (-7)). Proof. vm_compute. reflexivity. Qed.
+Example tn_true : text_num [116; 114; 117; 101] = Ok (VInt 1). Proof. vm_compute. reflexivity. Qed.
+Example tn_abc : text_num [97; 98; 99] = Ok (VStr [97; 98; 99]). Proof. vm_compute. reflexivity. Qed.
+Example tn_empty : text_num [] = Ok (VStr []). Proof. vm_compute. reflexivity. Qed.
+Example tn_comma : text_num [49; 44; 53] = Ok (VStr [49; 44; 53]). Proof. vm_compute. reflexivity. Qed.
+Example am_inf : arith_modelled (VStr [105; 110; 102]) = false. Proof. vm_compute. reflexivity. Qed.
+Example am_1e400 : arith_modelled (VStr [49; 101; 52; 48; 48]) = false. Proof. vm_compute. reflexivity. Qed.
+Example am_abc : arith_modelled (VStr [97; 98; 99]) = true. Proof. vm_compute. reflexivity. Qed.
+Example am_3_5 : arith_modelled (VStr [32; 51; 46; 53; 32]) = true. Proof. vm_compute. reflexivity. Qed.
+(* " 3.5 " + 2 = 5.5, "12" * "3" = 36, "abc" + 1 = #VALUE!, "3.0" + 1 = 4.0 against 3.0 + 1 = 4 *)
+Example ex_text_add : fixup (VStr [32; 51; 46; 53; 32]) Add (VInt 2) = Ok (VFloat (11 # 2)).
+Proof. vm_compute. reflexivity. Qed.
+Example ex_text_mul : fixup (VStr [49; 50]) Mult (VStr [51]) = Ok (VInt 36).
+Proof. vm_compute. reflexivity. Qed.
+Example ex_text_value : fixup (VStr [97; 98; 99]) Add (VInt 1) = Ok excelutil.c_VALUE_ERROR.
+Proof. vm_compute. reflexivity. Qed.
+Example ex_kind_text : fixup (VStr [51; 46; 48]) Add (VInt 1) = Ok (VFloat (4 # 1)).
+Proof. vm_compute. reflexivity. Qed.
+Example ex_kind_float : fixup (VFloat (3 # 1)) Add (VInt 1) = Ok (VInt 4).
+Proof. vm_compute. reflexivity. Qed.
+(* modelled operands of every kind *)
+Example om_cmp : op_modelled Lt (VStr [233; 28450]) = true. Proof. vm_compute. reflexivity. Qed.
+Example om_cmp_no : op_modelled Lt (VStr [946]) = false. Proof. vm_compute. reflexivity. Qed.
+Example om_concat : op_modelled BitAnd (VFloat (3 # 2)) = true. Proof. vm_compute. reflexivity. Qed.
+Example om_concat_no : op_modelled BitAnd (VFloat (1 # 3)) = false. Proof. vm_compute. reflexivity. Qed.
+(* ^ : 2 ^ 0.5 is outside the model, (-8) ^ 0.5 is #NUM!, 2 ^ "3.0" = 8.0, 0 ^ -1 = #DIV/0! *)
+Example pm_sqrt : pow_modelled (VInt 2) (VFloat (1 # 2)) = false. Proof. vm_compute. reflexivity. Qed.
+Example pm_neg : pow_modelled (VInt (-8)) (VFloat (1 # 2)) = true. Proof. vm_compute. reflexivity. Qed.
+Example ex_pow_num : fixup (VInt (-8)) Pow (VFloat (1 # 2)) = Ok excelutil.c_NUM_ERROR.
+Proof. vm_compute. reflexivity. Qed.
+Example ex_pow_text : fixup (VInt 2) Pow (VStr [51; 46; 48]) = Ok (VFloat (8 # 1)).
+Proof. vm_compute. reflexivity. Qed.
+Example ex_pow_div0 : fixup (VInt 0) Pow (VInt (-1)) = Ok excelutil.c_DIV0.
+Proof. vm_compute. reflexivity. Qed.
+(* & : 3.0 -> "3", 1.5 -> "1.5", -2.0 & TRUE -> "-2TRUE" *)
+Example ex_concat_3 : fixup (VFloat (3 # 1)) BitAnd (VStr [120]) = Ok (VStr [51; 120]).
+Proof. vm_compute. reflexivity. Qed.
+Example ex_concat_1_5 : fixup (VFloat (3 # 2)) BitAnd (VStr [120]) = Ok (VStr [49; 46; 53; 120]).
+Proof. vm_compute. reflexivity. Qed.
+Example ex_concat_neg : fixup (VFloat (-4 # 2)) BitAnd (VBool true) = Ok (VStr [45; 50; 84; 82; 85; 69]).
+Proof. vm_compute. reflexivity. Qed.
+Example ex_integral : ((-4 # 2) == inject_Z (-2))%Q. Proof. reflexivity. Qed.
